@@ -35,6 +35,9 @@ extern MostAlignedType *stoAlloc	(unsigned code, ULong size);
 extern MostAlignedType *stoCAlloc	(unsigned code, ULong size);
 extern void		stoFree		(Pointer p);
 extern void		stoGc		(void);
+#ifdef ALDOR_VERIF
+extern void		stoVerifMark	(void);
+#endif
 extern void		stoTune		(void);
 
 extern ULong		stoSize		(Pointer p);
